@@ -833,8 +833,9 @@ func checkModuliLogSize(logQ, logP []int) error {
 // GenModuli generates a valid moduli chain from the provided moduli sizes.
 func GenModuli(LogNthRoot int, logQ, logP []int) (q, p []uint64, err error) {
 
-	if err = checkSizeParams(logN); err != nil {
-		return
+	// No prime of a supported size is congruent to 1 modulo a larger root order
+	if LogNthRoot < 1 || LogNthRoot > MaxModuliSize {
+		return nil, nil, fmt.Errorf("LogNthRoot=%d is not in [1, %d]", LogNthRoot, MaxModuliSize)
 	}
 
 	if err = checkModuliLogSize(logQ, logP); err != nil {
